@@ -12,7 +12,8 @@
 (*  var    = [name, enabled, min, max, lockRange, terms: Seq(term)]         *)
 (*  out    = var + [lockPrev, default, aggregation (S-norm name | "none"),  *)
 (*                  defuzzifier: [cls ("none"|class), resolution, type]]    *)
-(*  term   = [name, k, p, h]   (Terms.tla; k = "Linear": p = coefficients)  *)
+(*  term   = [name, k, p, h]   (Terms.tla; k = "Linear": p = coefficients;  *)
+(*            k = "Function": + tree, a formula tree of FunctionSyntax.tla) *)
 (*  blk    = [name, enabled, conjunction, disjunction, implication,         *)
 (*            activation: [cls, rules, threshold, comparator], rules]       *)
 (*  rule   = [enabled, loaded, weight, ant: tree, cons: Seq([var,hs,term])] *)
@@ -26,7 +27,7 @@
 (*  outval, prev : value / previous value of each output variable           *)
 (*  deg, trig : per block, per rule: activation degree and triggered flag   *)
 (***************************************************************************)
-EXTENDS Defuzzifiers, Hedges
+EXTENDS Defuzzifiers, Hedges, FunctionSyntax
 
 \* ---- look-ups ------------------------------------------------------------------------------
 IsInput(E, n)  == \E i \in 1..Len(E.inputs) : E.inputs[i].name = n
@@ -151,7 +152,17 @@ LinearValue(E, st, t) ==
       c == IF Len(t.p) > n THEN t.p[n + 1] ELSE Zero
   IN IF Len(t.p) \notin {n, n + 1} THEN Err
      ELSE Add(FoldSeq(LAMBDA i, acc : Add(acc, Mul(t.p[i], st.inval[i])), Zero, [i \in 1..n |-> i]), c)
-ZOf(E, st, g) == IF g.term.k = "Linear" THEN LinearValue(E, st, g.term) ELSE MuX(g.term, g.degree)
+\* Function term: the formula evaluated (FunctionSyntax.EvalT) with the engine's current input and output values under their
+\* names and the argument under the name x; a value that is not rational is marked irrational
+FunctionValue(E, st, t, x) ==
+  LET names == { E.inputs[i].name : i \in 1..Len(E.inputs) } \cup { E.outputs[o].name : o \in 1..Len(E.outputs) } \cup {"x"}
+      env == [nm \in names |-> IF nm = "x" THEN KQ(x)
+                               ELSE IF IsInput(E, nm) THEN KQ(st.inval[InIdx(E, nm)]) ELSE KQ(st.outval[OutIdx(E, nm)])]
+      e == EvalT(t.tree, env)
+  IN IF IsBad(x) THEN x ELSE IF IsQ(e) THEN QV(e) ELSE Irr
+ZOf(E, st, g) == IF g.term.k = "Linear" THEN LinearValue(E, st, g.term)
+                 ELSE IF g.term.k = "Function" THEN FunctionValue(E, st, g.term, g.degree)
+                 ELSE MuX(g.term, g.degree)
 
 RawValue(E, st, o) ==
   LET var == E.outputs[o]  dz == var.defuzzifier  acts == st.fuzzy[o] IN
